@@ -3,7 +3,7 @@
    (the `flag` package is outside the model; the correspondence drives the real binary with real
    command lines).  Benchmark and web-server flags are not modelled (they never reach this code). *)
 From stdpp Require Import gmap.
-Require Import Grits.Base Grits.STypes Grits.Forms Grits.Expand Grits.Tc Grits.TcTop Grits.Runtime.
+Require Import Grits.Base Grits.ModeDefs Grits.Modes Grits.STypes Grits.Forms Grits.Expand Grits.Tc Grits.TcTop Grits.Runtime.
 
 Record flags : Type := {
   fl_typecheck : bool;      (* --typecheck (default true) *)
@@ -31,6 +31,46 @@ Definition done0 (ran : bool) (ls : list string) : cli_out :=
   {| co_exit := 0; co_diags := 0; co_ran := ran; co_labels := ls; co_trace := false |}.
 Definition crash2 (ls : list string) : cli_out :=
   {| co_exit := 2; co_diags := 0; co_ran := true; co_labels := ls; co_trace := true |}.
+
+(* An UNCHECKED run (RuntimeEnvironment.Typechecked = false): the interpreter does not read polarities from type
+   annotations (there are none) but from the explicit polarity a name carries (`+x` / `-x`), Name.Polarity(false, _);
+   a name without one has an unknown polarity and a forward on it stops the run.  The model's interpreter reads the
+   polarity of a forward from `nty`; the unchecked mode is modelled by giving every name that has an explicit polarity
+   and no type a type of that polarity (nothing else reads `nty` at run time). *)
+Definition expl_name (n : name) : name :=
+  match nty n, pol n with
+  | None, Some Pos => set_nty n (Some (TUnit Lin))
+  | None, Some Neg => set_nty n (Some (TLolli (TUnit Lin) (TUnit Lin) Lin))
+  | _, _ => n
+  end.
+Fixpoint expl_form (f : form) : form :=
+  match f with
+  | FSend a b c => FSend (expl_name a) (expl_name b) (expl_name c)
+  | FRecv a b c k => FRecv (expl_name a) (expl_name b) (expl_name c) (expl_form k)
+  | FSel a l c => FSel (expl_name a) l (expl_name c)
+  | FCase a bs => FCase (expl_name a) (expl_brs bs)
+  | FNew x b k => FNew (expl_name x) (expl_form b) (expl_form k)
+  | FClose c => FClose (expl_name c)
+  | FWait c k => FWait (expl_name c) (expl_form k)
+  | FFwd a b d => FFwd (expl_name a) (expl_name b) d
+  | FSplit x y c k => FSplit (expl_name x) (expl_name y) (expl_name c) (expl_form k)
+  | FCall g args t => FCall g (map expl_name args) t
+  | FCast a c => FCast (expl_name a) (expl_name c)
+  | FShift x c k => FShift (expl_name x) (expl_name c) (expl_form k)
+  | FDrop c k => FDrop (expl_name c) (expl_form k)
+  | FPrint l k => FPrint l (expl_form k)
+  end
+with expl_brs (b : branches) : branches :=
+  match b with
+  | BrNil => BrNil
+  | BrCons l pay k r => BrCons l (expl_name pay) (expl_form k) (expl_brs r)
+  end.
+Definition expl_program (p : program) : program :=
+  {| p_procs := map (fun q => {| pr_body := expl_form (pr_body q); pr_providers := pr_providers q; pr_type := pr_type q |}) (p_procs p);
+     p_assumed := p_assumed p;
+     p_funs := map (fun g => {| fn_name := fn_name g; fn_params := fn_params g; fn_body := expl_form (fn_body g);
+                                fn_type := fn_type g; fn_explicit := fn_explicit g |}) (p_funs p);
+     p_types := p_types p |}.
 
 (* the run, under a schedule oracle; a run-time error is a Go panic: trace, exit status 2 *)
 Definition cli_run (pick : nat -> nat -> nat) (fuel : nat) (md : exec_mode) (p : program) : cli_out :=
@@ -60,7 +100,7 @@ Definition cli (pick : nat -> nat -> nat) (fuel : nat) (f : flags) (file : optio
         | Reject | RejectInternal _ => fail1
         | Diverge _ => fail1                     (* unreachable (C09); a hang is not an exit status *)
         end
-      else go p
+      else go (expl_program p)
     | PErr _ => fail1
     | PPanic _ => {| co_exit := 2; co_diags := 0; co_ran := false; co_labels := []; co_trace := true |}
     | PHang _ => fail1                           (* unreachable (C11) *)
